@@ -90,12 +90,33 @@ def run(ctx, b, drv):
     sweep(ctx)
 
 
+def blank_line_layouts():
+    """what may stand between two definitions: 0-3 blank lines, 0-2 comment lines, 0-2 blank lines after the comments; def / class / async def / decorated,
+    at module level and inside a class (the blank-line rules report E301 / E302 / E303 / E304 from several branches at the same position)"""
+    out = []
+    heads = ['def g():\n%s    pass\n', 'class G:\n%s    pass\n', 'async def g():\n%s    pass\n', '@dec\n%sdef g():\n    pass\n']
+    for before in range(4):
+        for ncom in range(3):
+            for after in range(3):
+                if ncom == 0 and after:
+                    continue
+                for hi, head in enumerate(heads):
+                    inner = ('\n' * after) if hi == 3 else ''
+                    second = head % inner
+                    gap = '\n' * before + '# helper\n' * ncom + ('' if hi == 3 else '\n' * after)
+                    top = 'def f():\n    pass\n' + gap + second
+                    out.append(top)
+                    body = 'x = 1\n' + gap + second
+                    out.append('class C:\n' + ''.join('    ' + l if l.strip() else l for l in body.splitlines(True)))
+    return out
+
+
 def sweep(ctx):
     """the comparison corpus (every operand shape around every comparison operator) and the near-miss programs, one grammar version per program"""
     import parso
     from harness import gens
     vs = streams.versions()
-    for i, code in enumerate(gens.COMPARISONS + gens.SEMANTIC[:400]):
+    for i, code in enumerate(gens.COMPARISONS + gens.SEMANTIC[:400] + blank_line_layouts()):
         v = vs[(i + int(ctx.seed or 0)) % len(vs)]
         ctx.count('c20-sweep')
         try:
